@@ -54,6 +54,36 @@ def cleanup_loop(body):
     return None
 
 
+def registry_only_grows(cls):
+    """self.children of the server is the list the shutdown paths iterate: it has to hold every direct child ever spawned.  True when, in the
+    whole class, it is only ever (re)initialised to [], appended to, and cleared right after a loop over it (the shutdown paths themselves)."""
+    def is_reg(e):
+        return ast.unparse(e) == 'self.children'
+    for n in ast.walk(cls):
+        if isinstance(n, (ast.Assign, ast.AugAssign, ast.AnnAssign)):
+            targets = n.targets if isinstance(n, ast.Assign) else [n.target]
+            for t in targets:
+                for x in ast.walk(t):
+                    if is_reg(x) and not (isinstance(n, ast.Assign) and t is x and isinstance(n.value, ast.List) and not n.value.elts):
+                        return False
+        if isinstance(n, ast.Delete) and any(is_reg(x) for t in n.targets for x in ast.walk(t)):
+            return False
+        if isinstance(n, ast.Call) and isinstance(n.func, ast.Attribute) and is_reg(n.func.value) and n.func.attr not in ('append', 'clear', 'copy', 'index', 'count'):
+            return False
+    # every clear() directly follows a loop over the registry in the same block
+    for n in ast.walk(cls):
+        for field in ('body', 'orelse', 'finalbody'):
+            block = getattr(n, field, None)
+            if not isinstance(block, list):
+                continue
+            for i, st in enumerate(block):
+                if isinstance(st, ast.Expr) and isinstance(st.value, ast.Call) and isinstance(st.value.func, ast.Attribute) \
+                        and is_reg(st.value.func.value) and st.value.func.attr == 'clear':
+                    if not any(isinstance(p, ast.For) and 'self.children' in ast.unparse(p.iter) for p in block[:i]):
+                        return False
+    return True
+
+
 def b(x):
     return 'true' if x else 'false'
 
@@ -73,7 +103,7 @@ def generate(repo):
         out.update(fin_children=False, fin_contexts=False, fin_force=False, fin_sigterm=False)
     else:
         it, forced, sig = loop
-        out.update(fin_children='self.children' in it, fin_contexts='self.contexts.values()' in it, fin_force=forced, fin_sigterm=sig)
+        out.update(fin_children='self.children' in it and registry_only_grows(find_class(srv, 'RemoteServer')), fin_contexts='self.contexts.values()' in it, fin_force=forced, fin_sigterm=sig)
     # the accept loop must leave through the finally for the exceptions used to stop the server
     hs = [ast.unparse(h.type) if h.type is not None else 'BaseException' for h in tries[0].handlers]
     out['stop_exceptions_caught'] = any('WorkerTerminatedError' in h for h in hs)
@@ -89,7 +119,7 @@ def generate(repo):
             if isinstance(f, ast.For) and ast.unparse(f.iter) == 'self.children' and isinstance(f.target, ast.Name):
                 kills = kills or any(is_sigterm_kill(c, f.target.id) for c in calls(f))
         redelivers = any(isinstance(c.func, ast.Attribute) and c.func.attr == 'kill' and ast.unparse(c.args[0]) == 'os.getpid()' for c in calls(cleanup[0]) if c.args)
-    out['hnd_kills_children'] = bool(cleanup) and installed and kills
+    out['hnd_kills_children'] = bool(cleanup) and installed and kills and registry_only_grows(find_class(srv, 'RemoteServer'))
     out['hnd_redelivers'] = bool(cleanup) and installed and redelivers
     # --- the context helper
     dw = find_method(find_class(ctxm, 'RemoteContextWorker'), 'do_work')
